@@ -32,7 +32,7 @@ def run(ctx, report: Report) -> None:
     facts = Bs4Facts()
 
     # ---- R1 ----------------------------------------------------------------------------------------------
-    r1 = report.rule('C19-R1', 'node-kind classification is exhaustive', floor=7)
+    r1 = report.rule('C19-R1', 'node-kind classification is exhaustive', floor=3)
     _, iss = src.func('css_match._DocumentNav.is_special_string')
     classes = facts.element_classes()
     pre = facts.subclasses_of('PreformattedString')
@@ -90,7 +90,7 @@ def run(ctx, report: Report) -> None:
                      f'for a Tag the predicates answer (special, content, navigable) = {tg}; all three must be False')
 
     # ---- R2 ----------------------------------------------------------------------------------------------
-    r2 = report.rule('C19-R2', 'every text reader is guarded by the classification', floor=117)
+    r2 = report.rule('C19-R2', 'every text reader is guarded by the classification', floor=223)
     # what each text reader does with nodes that are not content (comment, CDATA, PI, declaration, doctype), as tables on
     # abstract trees: :empty, :root and :dir() here; the two collectors and :-soup-contains below
     from .sem import dir_table, empty_table, root_table
@@ -148,7 +148,7 @@ def run(ctx, report: Report) -> None:
                              f'{"joined without separator" if src_kind == "descendants" else "one entry per node"})')
 
     # ---- R3 (decision table of match_contains by partial evaluation) -----------------------------------------
-    r3 = report.rule('C19-R3', 'any-of-list substring semantics: joined descendant text vs. one own text node', floor=59)
+    r3 = report.rule('C19-R3', 'any-of-list substring semantics: joined descendant text vs. one own text node', floor=29)
     _, mc = src.func('css_match.CSSMatch.match_contains')
     own_nodes, joined = ['ab', 'cd'], 'abXcd'       # own text nodes of the element / text of all descendants
     from .sem import real_matcher
@@ -229,7 +229,7 @@ def run(ctx, report: Report) -> None:
                          f'that merely compares equal (bs4 compares tags by markup and strings by characters; the memo must be keyed by identity)')
 
     # ---- R4 ----------------------------------------------------------------------------------------------
-    r4 = report.rule('C19-R4', 'needles reach the IR undistorted', floor=3)
+    r4 = report.rule('C19-R4', 'needles reach the IR undistorted', floor=1)
     pmod, pcs = src.func('css_parser.CSSParser.parse_pseudo_contains')
     flow = StrFlow(src, pmod, pcs, 'CSSParser')
     sinks = [c for c in walk_no_nested(pcs) if isinstance(c, ast.Call) and src.resolve_class_ref(pmod, c.func) == 'css_types.SelectorContains']
@@ -262,7 +262,7 @@ def run(ctx, report: Report) -> None:
         r4.violation('contains alias warning elsewhere', 'soupsieve/css_parser.py', f'the :contains deprecation warning is emitted in {sorted(where)}')
 
     # ---- R5 ----------------------------------------------------------------------------------------------
-    r5 = report.rule('C19-R5', ':empty uses the CSS whitespace set', floor=3)
+    r5 = report.rule('C19-R5', ':empty uses the CSS whitespace set', floor=1)
     r = inv.find('css_match.RE_NOT_EMPTY')
     d = 'missing'
     if r is not None:
